@@ -612,10 +612,14 @@ func c15Message(r *fw.Run, key string, b *builtMsg, faultAll bool) {
 				}
 			}
 			size := probe.CallSizes[k]
+			tried := map[int]bool{}
 			for _, j := range []int{0, 1, size - 1, size} {
-				if j < 0 || j > size || (j == 1 && size < 2) {
+				// j == size: the writer takes everything and still reports an error (a flush behind
+				// the write failed) — also for the one-byte writes of the line ends
+				if j < 0 || j > size || tried[j] {
 					continue
 				}
+				tried[j] = true
 				fwr := &mon.FaultWriter{FailAt: k, Accept: j, Err: errInjectedWrite}
 				gn, gerr := b.Msg.WriteTo(mk(fwr))
 				r.Count("faulted_writes", 1)
